@@ -570,7 +570,7 @@ func init() { h.Reg("c16", func(c Case) error { _, err := check(c); return err }
 
 // ---- generators -----------------------------------------------------------------------------------------
 
-var alphabet = []rune{'a', 'b', 'é', '日', '😀'}
+var alphabet = []rune{'a', 'b', 'é', '日', '😀', '\U0010FFFF', '\x7f'}
 
 func u(t *rapid.T, n int, l string) int { return int(rapid.Uint64().Draw(t, l) % uint64(n)) }
 
